@@ -117,6 +117,7 @@ type Exec struct {
 	FullMs     int
 	FeasMs     int
 	MaxPaths   int
+	Budget     []string // exploration budgets that ran out (reported as undecided, not as a failure of the check)
 	MaxBranch  int // decisions per path (unwinding bound)
 	MaxSummary int
 	LocalPruneDepth int
@@ -1211,7 +1212,7 @@ func (ex *Exec) RunHarness(fn *ssa.Function) {
 			break
 		}
 		if !ex.Deadline.IsZero() && time.Now().After(ex.Deadline) {
-			ex.Unsupp = append(ex.Unsupp, "task deadline reached before the path space was exhausted")
+			ex.Budget = append(ex.Budget, fmt.Sprintf("task time budget reached after %d paths, before the path space was exhausted", ex.Paths))
 			break
 		}
 	}
